@@ -218,7 +218,10 @@ def make_tasks(tier, seed):
   add(cfg, 'dy2', 'moist', 'rot7'); add(cfg, 'dy2', 'moist', 'mirror')
   add(cfge, 'dy2', 'dry', 'rot3')
   add(cfg, 'dy2', 'dry', 'rot1', 'euler'); add(cfg, 'dy2', 'dry', 'mirror', 'leapfrog')
-  for c, w in ((cfg, 'rot1'), (cfg, 'mirror'), (cfgf, 'rot8'), (cfgf, 'mirror')):
+  # tight odd longitude grids (longitude_nodes == 2 M - 1: the real Fourier basis is exactly complete on the nodes), both implementations
+  cfgt = dict(M=3, L=4, nlon=5, nlat=5, impl='fast', base=1); cfgtr = dict(M=3, L=4, nlon=5, nlat=5)
+  add(cfgt, 'dy2', 'dry', 'rot1'); add(cfgtr, 'dy2', 'dry', 'rot2')
+  for c, w in ((cfg, 'rot1'), (cfg, 'mirror'), (cfgf, 'rot8'), (cfgf, 'mirror'), (cfgt, 'rot3'), (cfgt, 'mirror')):
     tasks.append(dict(name=f'sw-{grids.cfg_name(c)}-{w}', fn='task_sw', kw=dict(cfg=c, which=w)))
   cfg2 = dict(M=2, L=3, nlon=5, nlat=4)
   tasks.append(dict(name='sw-trajectory-rot2', fn='task_sw_trajectory', kw=dict(cfg=cfg2, which='rot2')))
@@ -236,6 +239,8 @@ def main(tier='quick', seed=0, jobs=None, only=None, t0=None):
   tasks = make_tasks(tier, seed)
   if only:
     tasks = [t for t in tasks if only in t['name']]
+  if jobs is None and tier != 'quick':
+    jobs = 5          # the moist K=3 step tasks need several GB each: bounded parallelism (an out-of-memory kill of one worker breaks the pool)
   results = harness.run_tasks(MOD, tasks, PID, seed, tier, jobs)
   return harness.finalize(
       PID, tier, seed, results, t0,
